@@ -72,6 +72,8 @@ GRID_SPEC = wbspec.spec(wbspec.sheet('S1', {
     # the digit count arriving in other ways than as an int in a cell: a blank cell (Z9 is never written: blank counts as 0), a whole
     # float made by arithmetic or by another function, the count of another function
     'J1': '=ROUND(A1,Z9)', 'K1': '=ROUNDUP(A1,Z9)', 'L1': '=ROUNDDOWN(A1,Z9)', 'M1': '=ROUND(A1,B1*1.0)', 'N1': '=ROUNDUP(A1,B1/1)',
+    # percent directly after a call or a group (x% = x/100 whatever produced x)
+    'S1': '=IF(B1>=-99,A1,0)%', 'T1': '=IF(B1<-99,0,A1)%', 'U1': '=SUM(A1)%', 'V1': '=(A1)%', 'W1': '=MAX(A1,A1)%', 'X1': '=IFERROR(A1,0)%', 'Y1': '=(A1+0)%',
     'O1': '=ROUNDDOWN(A1,ROUND(B1,0))', 'P1': '=ROUND(A1,COUNT(B1:B1)+B1-1)', 'Q1': '=ROUNDUP(A1,MAX(B1,-99))', 'R1': '=ROUNDDOWN(A1,SUM(B1,Z9))'}))
 FCELL = {'ROUND': 'C1', 'ROUNDUP': 'D1', 'ROUNDDOWN': 'E1'}
 
@@ -142,6 +144,13 @@ def run_grid(shard, ctx):
         if not outcome_matches(out, [exp], exact=True):
             report(r, ID, None, {'fn': '%', 'text': text, 'how': 'override'}, out.brief(), exp, monitor='percent-15g')
         nt += 1
+        if nt % 7 == 0:
+            for cell in ('S1', 'T1', 'U1', 'V1', 'W1', 'X1', 'Y1'):
+                o2 = book.value(0, cell, [(0, 'A1', x)])
+                r.ev()
+                r.count('percent_after_call_or_group')
+                if not outcome_matches(o2, [exp], exact=True):
+                    report(r, ID, None, {'fn': '%', 'text': text, 'how': 'percent-after:' + GRID_SPEC['sheets'][0]['cells'][cell]}, o2.brief(), exp, monitor='percent-15g')
     # alternative spellings agree (';' separator, default digits) on a few values
     for text in ('2.5', '-2.5', '0.0045', '7.1255'):
         x = float(text)
